@@ -207,6 +207,9 @@ func runM1(w *bufio.Writer, c Case, cs string, stats map[string]int) {
 		}
 		fmt.Fprintf(w, "%s => %s\n", strings.Join(op, " "), res)
 	}
+	for k, v := range sys.cstats {
+		stats[k] += v
+	}
 }
 
 func main() {
